@@ -78,6 +78,7 @@ func (u *Unit) invoke(st *State, instr ssa.Instruction, cc *ssa.CallCommon, call
 		} else {
 			u.addOblig(st, "nopanic.nilinvoke", "", nil, Neq(recv, IntLit(0)), instr, "implicit: method call on non-nil interface ("+name+")")
 		}
+		u.checkAtStub(st, instr, name)
 		if r, ok := u.stubMethod(st, instr, name, recv, args, sig); ok {
 			return u.recordRes(u.event(st, name, append([]Value{recv}, args...)), r)
 		}
@@ -103,6 +104,7 @@ func (u *Unit) invoke(st *State, instr ssa.Instruction, cc *ssa.CallCommon, call
 		if o := fn.Origin(); o != nil {
 			full = o.String()
 		}
+		u.checkAtStub(st, instr, name)
 		if r, ok := u.stubFunc(st, instr, full, args, sig, cc); ok {
 			return u.recordRes(u.event(st, name, args), r)
 		}
@@ -613,8 +615,32 @@ func (u *Unit) recordResultSeq(st *State, evName string, val Value) {
 }
 
 // checkAt evaluates `at MARK assert` clauses of the current function.
+// checkAtStub: `at call:NAME` marks on library functions modelled by stubs
+// (NAME as in events: "(*WaitGroup).Done" or its short form "WaitGroup.Done").
+func (u *Unit) checkAtStub(st *State, instr ssa.Instruction, name string) {
+	fs := u.atSpec(st)
+	if fs == nil || len(fs.Asserts) == 0 {
+		return
+	}
+	short := strings.NewReplacer("(*", "", ")", "").Replace(name)
+	for _, c := range fs.Asserts {
+		base := c.Mark
+		if i := strings.LastIndex(base, "#"); i > 0 {
+			base = base[:i]
+		}
+		if base == "call:"+name {
+			u.checkAt(st, instr, "call:"+name)
+			return
+		}
+		if base == "call:"+short {
+			u.checkAt(st, instr, "call:"+short)
+			return
+		}
+	}
+}
+
 func (u *Unit) checkAt(st *State, instr ssa.Instruction, mark string) {
-	fs := u.specOfFrame(st)
+	fs := u.atSpec(st)
 	if fs == nil {
 		return
 	}
@@ -626,6 +652,10 @@ func (u *Unit) checkAt(st *State, instr ssa.Instruction, mark string) {
 		if c.Mark != mark && c.Mark != sited {
 			continue
 		}
+		if u.atHit == nil {
+			u.atHit = map[*Clause]bool{}
+		}
+		u.atHit[c] = true
 		env := u.newEnv(st)
 		g := u.evalBool(env, c.Expr)
 		u.addOblig(st, "at."+labelOr(c, "assert"), c.Text, c.Props, g, instr, "at "+mark+": "+c.Text)
